@@ -117,7 +117,8 @@ PROPS["C19"] = {
     "level_note": "Trusted: encoding/json escaping (checked with json.Valid on every case, not proved). One recorded finding F13 (names unescaped in the table).",
     "technique": "Lean 4 proof (footnote numbering) + differential correspondence with table re-parsing",
     "modules": ["GitSizer.Props.C19"],
-    "engines": [{"name": "output", "quick": 2400, "thorough": 120000, "per_shard": 200}, {"name": "parsers", "quick": 4000, "thorough": 400000, "per_shard": 20000}],
+    "engines": [{"name": "output", "quick": 2400, "thorough": 120000, "per_shard": 200}, {"name": "parsers", "quick": 4000, "thorough": 400000, "per_shard": 20000},
+                {"name": "e2e", "quick": 160, "thorough": 8000, "per_shard": 10}],
     "rule": "as C11; one case in eight uses nasty names (newline, tab, quotes, backslash, '|', '[n]', non-UTF-8, over-long) for refgroup display names and witness descriptions; non-trivial = every case.",
     "assumptions": [],
 }
